@@ -270,7 +270,7 @@ func genC02(seed uint64, idx int, tier string) *Plan {
 	every := 60
 	if idx%every == 0 {
 		// exhaustive single-bit flips of one hello
-		f := &FlipPlan{Real: (idx/every)%2 == 1}
+		f := &FlipPlan{Real: (idx/every)%3 == 1, Retry: (idx/every)%3 == 2}
 		f.Base = *genScriptBase(r)
 		f.Base.Chunks, f.Base.ReadBuf, f.Base.Trailer = nil, 0, nil
 		if f.Real {
@@ -278,6 +278,9 @@ func genC02(seed uint64, idx int, tier string) *Plan {
 		} else {
 			f.Base.MaxData = min(f.Base.MaxData, 40)
 			f.Base.Pad = min(f.Base.Pad, 64)
+			if f.Retry {
+				f.Base.ExtraIn = max(f.Base.ExtraIn, 2)
+			}
 		}
 		return &Plan{Kind: "flip", Seed: seed, Flip: f}
 	}
